@@ -196,7 +196,22 @@ def orbit_monitor(ctx, specs):
             ctx.skip(f"seed construction failed ({type(exc).__name__})")
             continue
         label = f"{name}:L{L}:{fam}:{kw}"
-        ctx.case(f"orbit:{fam}:L{L}", [name, L, fam, sorted(kw.items())], nontrivial=True)
+        # warm start (every third case): pre-set the period to that of a neighbouring, already corrected family member — the pattern
+        # used when walking a family; the corrected orbit must still carry ITS OWN period afterwards
+        if fam in ("halo", "lyapunov") and k % 3 == 1:
+            try:
+                key = "amplitude_z" if fam == "halo" else "amplitude_x"
+                kw2 = dict(kw)
+                kw2[key] = kw[key] * (1 + 2e-4)
+                nb = pt.create_orbit(fam_cls[fam], **kw2)
+                nb.correct()
+                orb.period = float(nb.period)
+                p_seed = orb.period
+                label += ":warm-start"
+                ctx.count("O:warm-started corrections (period pre-set from a neighbouring member)")
+            except Exception:
+                pass
+        ctx.case(f"orbit:{fam}:L{L}", [name, L, fam, sorted(kw.items()), label.endswith("warm-start")], nontrivial=True)
         try:
             res = orb.correct()
         except Exception as exc:
